@@ -1127,6 +1127,10 @@ class Interp:
             return PyFunc(lambda a, k, n: "<str>")
         if isinstance(o, dict) and name in ("get", "items", "keys", "values"):
             return Builtin("dict." + name, o)
+        if isinstance(o, dict) and name == "copy":
+            # dict.copy() returns a plain dict, also for subclasses that do
+            # not override it
+            return PyFunc(lambda a, k, n, o=o: dict(o))
         if isinstance(o, list) and name in ("append", "extend"):
             return Builtin("list." + name, o)
         if isinstance(o, (list, tuple)) and name == "index":
